@@ -22,9 +22,9 @@ Definition isplit (num nchunks : Z) : result (list (Z * Z)) :=
 
 (* ------------------------------------------------------------ splitarray *)
 (* numpy_util.py:1825-1837: nchunks = size // nper (+1 if size % nper != 0);
-   chunk i = var[i*nper:(i+1)*nper].  Modelled for nper >= 1 (nper = 0 divides by zero). *)
+   chunk i = var[i*nper:(i+1)*nper].  nper = 0 divides by zero; nper < 0 gives a non-positive count, hence no chunks (as range() of it). *)
 Definition splitarray {A} (nper : Z) (var : list A) : result (list (list A)) :=
-  if nper <=? 0 then Err EOther
+  if nper =? 0 then Err EOther
   else
     let size := Z.of_nat (length var) in
     let nchunks := size / nper + (if size mod nper =? 0 then 0 else 1) in
